@@ -69,16 +69,19 @@ class Atom:
             side(self.false_fail, self.false_codes, self.false_ret), self.line)
 
 
-def atoms(fn):
-    """All boolean branch atoms of a function."""
-    key = "atoms"
+def atoms(fn, ctx=None, cut=False):
+    """All boolean branch atoms of a function; with ctx only those reachable in that
+    context, with terms resolved along the context's feasible edges."""
+    key = ("atoms", tuple(sorted(ctx.items())) if ctx is not None else None, cut)
     if key in fn._cache:
         return fn._cache[key]
-    pv = prov_of(fn)
+    pv = prov_of(fn, ctx, cut=cut) if (ctx is not None or cut) else prov_of(fn)
     out = []
     for bi, bb in enumerate(fn.blocks):
         t = bb["t"]
         if bb["c"] or t["k"] != "switch" or t.get("dt") != "bool":
+            continue
+        if pv.flow is not None and pv.flow.state_in[bi] is None:
             continue
         term = pv.operand(t["d"], bi, len(bb["s"]))
         neg = False
